@@ -319,20 +319,44 @@ def cleanup (s : Sheet) : Sheet :=
   let maxRow := (highest s).2
   cleanupLoop s ((range 1 maxRow).reverse)
 
-/-- `move_or_copy_range` on a cell rectangle with offsets; panics when the target leaves the grid -/
+/-- `get_coordinate_list(range)`: every position of the rectangle in row-major order, as `(row, col)` -/
+def rectPositions (rs re cs ce : Nat) : List Key :=
+  (range rs re).flatMap (fun r => (range cs ce).map (fun c => (r, c)))
+
+/-- `Cells::iter_all_coordinates_by_range_sorted_by_row`: the positions of the rectangle in row-major
+    order (`(row, col)`), merged with the index scan `it` (`(col, row)`, as `coordsInRange` yields):
+    `None` while the position is before the scan's current coordinate, otherwise
+    `Some((col, row))` of the POSITION and the scan advances (the code does not compare for equality). -/
+def scanAll : List Key → List Key → List (Option Key)
+  | [], _ => []
+  | _ :: xs, [] => none :: scanAll xs []
+  | x :: xs, cur :: it =>
+    if keyLt x (cur.2, cur.1) then none :: scanAll xs (cur :: it) else some (x.2, x.1) :: scanAll xs it
+
+/-- `iter_all_cells_by_range_sorted_by_row(range).flatten().map(clone).collect()`:
+    `self.map.get(&(row, col)).unwrap()` panics when the scan names a key the map does not hold -/
+def collectCells (s : Sheet) (rs re cs ce : Nat) (coords : List Key) : Res (List CellM) :=
+  mapRes (fun k => match lookup (k.2, k.1) s.cells with | some c => Res.ok c | none => Res.panic)
+    ((scanAll (rectPositions rs re cs ce) coords).filterMap id)
+
+/-- `move_or_copy_range` on a cell rectangle with offsets, statement by statement: the guard (panics
+    when the target leaves the grid), the collection of the source cells, the clean-up pass of a
+    move over EVERY position of the rectangle (the cell there and the cell at its image), the paste -/
 def moveOrCopy (s : Sheet) (rs re cs ce : Nat) (dr dc : Int) (isMove : Bool) : Res Sheet :=
   if (cs : Int) + dc < 1 ∨ (rs : Int) + dr < 1 ∨ (ce : Int) + dc > 16384 ∨ (re : Int) + dr > 1048576 then .panic
   else
     match coordsInRange s rs re cs ce with
     | .panic => .panic
     | .ok coords =>
-      let copies := coords.filterMap (fun k => lookup (k.2, k.1) s.cells)
-      let s :=
-        if isMove then
-          (range rs re).foldl (fun s r => (range cs ce).foldl (fun s c =>
-            removeCell (removeCell s c r) (((c : Int) + dc).toNat) (((r : Int) + dr).toNat)) s) s
-        else s
-      .ok (copies.foldl (fun s c => setCell s (((c.col : Int) + dc).toNat) (((c.row : Int) + dr).toNat) c.val c.sty) s)
+      match collectCells s rs re cs ce coords with
+      | .panic => .panic
+      | .ok copies =>
+        let s :=
+          if isMove then
+            (rectPositions rs re cs ce).foldl (fun s p =>
+              removeCell (removeCell s p.2 p.1) (((p.2 : Int) + dc).toNat) (((p.1 : Int) + dr).toNat)) s
+          else s
+        .ok (copies.foldl (fun s c => setCell s (((c.col : Int) + dc).toNat) (((c.row : Int) + dr).toNat) c.val c.sty) s)
 
 /-! ## operations as data -/
 
